@@ -26,9 +26,19 @@ SEEDS = {
            "a track with notes on more than one channel, a note held across a bar line, the first event after the bar line on another channel"),
  "C02-a": ("C02", "tokenise: `elif self.flag_fuse_value:` turned into a bare `else:`; with value not fused, running values on and an unchanged value the note token gets a fused value part the vocabulary does not contain",
            "flag_fuse_value=False with flag_running_values=True and two consecutive notes of equal duration"),
+ "C03-a": ("C03", "tokenise: the running values are restored with a tuple-unpack over (\"prv_track\", \"prv_velocity\", \"prv_value\") -- last two keys swapped -- and saved with state_dict.update(...)",
+           "flag_fuse_value=False, a velocity-bin value equal to a note value (8 bins: 24), and a call boundary where the previous velocity bin equals the next note's duration while the previous duration differs"),
+ "C10-a": ("C10", "Bar.__init__: capacity factored into a local in quarters; the pad target became int(capacity) * PPQN, truncating to whole quarters before converting to ticks",
+           "a signature whose capacity is not a whole number of quarters (3/8, 5/8, 7/8, 9/8) and a sequence shorter than the capacity"),
+ "C11-a": ("C11", "detokenise: int() dropped from the initial default bar capacity, so a `bar` token detokenised before any time-signature token turns the clock into a float",
+           "a token stream that relies on the default time signature (sequences without a TIME_SIGNATURE tokenised directly, or hand-written/model tokens) spanning at least one bar"),
+ "C12-a": ("C12", "MidiTrack.to_mido_track: `time_buffer = 0` deleted from the KEY_SIGNATURE branch; the accumulated wait is added again to the next emitted message",
+           "a key signature with a non-zero delta time (after a wait, not coinciding with a note event) followed by at least one more message in the track"),
 }
 
 INITIALLY_MISSED = {
+ "C03-a": "the first version of the C03 check aborted with ANALYSIS-ERROR (exit 2) on the tuple-unpack / update() idioms; the state extraction was generalised and now reports ST1",
+ "C10-a": "detected from the start by CAP on the pad length; the first version additionally reported the harmless local `capacity` (no forward substitution) -- corrected",
  "C18-a": "missed by the first version of the C18 check (frame rules only); the sorted-list invariant rule SORT (and ABS-SORTED in C04) was added",
  "C07-a": "missed by the first version of the C07 check; the STACK rules (keep/skip by number of open notes, LIFO pop) were added",
  "C09-a": "missed by the first version of the C09 check (caught by C08's RESTRIKE only); C09 now includes the split boundary rules KEY/CUT/RESTRIKE",
